@@ -1,11 +1,18 @@
+import RawPanelVerif.Gen.Consts
 /-!
 # C19 — model of the high-level client `gorwp`
 
-(a) `procesMessagesFromPanel` (gorwp/rawpanel.go 261-340) as a pure function: effects (ack sends, handler
-    invocations) and state updates per message, same order of effects as the Go code.
-(b) a small LTS of the reader (`readFromPanel`, 196-259) and the single `select` loop (150-186) with its two
-    bounded channels, in which the handlers' feedback and the ticker's ping are sent into the queue that the
-    same loop drains.
+(a) `procesMessagesFromPanel` (gorwp/rawpanel.go 278-365) as a pure function: effects (ack sends, handler
+    invocations) and state updates per message, same order of effects as the Go code; the reader's message filter
+    (`readerKeeps`: the binary read loop forwards a message only when its flow field is not ACK); dispatch over a
+    history that interleaves `Bind*` calls with events (`dispatchDyn`); `Connect`/`init` as a function of what
+    happens inside the initialisation window (`connect`).
+(b) a small LTS of the goroutines around the two bounded channels `fromPanel` / `toPanel` (capacities taken from the
+    source, `Gen.gorwpFromPanelCap` / `Gen.gorwpToPanelCap`).  The code as it is now (`decoupled = true`) has THREE
+    goroutines: the reader (`readFromPanel`, 212-276), the dispatcher (`listen`, 156-165: takes from `fromPanel`, runs
+    the handlers, whose feedback and the ping reply are sends into `toPanel`) and the writer (168-202: drains
+    `toPanel`, owns the ticker and enqueues its ping without waiting).  `decoupled = false` is the pinned code, in
+    which ONE `select` loop did the dispatcher's and the writer's work and so sent into the queue only it drained.
 
 Strings are byte lists.  `uint32`/`int32` values are carried as `Nat`/`Int` (the harness stays inside the ranges).
 -/
@@ -67,32 +74,48 @@ inductive Invocation
   deriving DecidableEq, Repr
 
 inductive Effect
-  | sendAck                     -- `rp.toPanel <- ACK` (267)
+  | sendAck                     -- `rp.toPanel <- ACK` (284)
   | invoke (i : Invocation)
   deriving DecidableEq, Repr
 
-/-- lines 322-336, one event -/
+/-- lines 347-349: the generic handler -/
+def callTrigger (b : Bindings) (e : Event) : List Invocation :=
+  if e.id ∈ b.trigger then [Invocation.trigger e.id e] else []
+
+/-- lines 350-352 -/
+def callBinary (b : Bindings) (e : Event) : List Invocation :=
+  match e.binary with
+  | some be => if e.id ∈ b.binary then [Invocation.binary e.id (if be.pressed then 1 else 0) (be.edge % 256)] else []
+  | none => []
+
+/-- lines 353-355 -/
+def callPulsed (b : Bindings) (e : Event) : List Invocation :=
+  match e.pulsed with
+  | some v => if e.id ∈ b.pulsed then [Invocation.pulsed e.id v] else []
+  | none => []
+
+/-- lines 356-358 -/
+def callAbsolute (b : Bindings) (e : Event) : List Invocation :=
+  match e.absolute with
+  | some v => if e.id ∈ b.absolute then [Invocation.absolute e.id (v : Int)] else []
+  | none => []
+
+/-- lines 359-361 -/
+def callIntensity (b : Bindings) (e : Event) : List Invocation :=
+  match e.speed with
+  | some v => if e.id ∈ b.intensity then [Invocation.intensity e.id v] else []
+  | none => []
+
+/-- lines 337-362, one event: the five handlers in program order -/
 def dispatchEvent (b : Bindings) (e : Event) : List Invocation :=
-  (if e.id ∈ b.trigger then [Invocation.trigger e.id e] else [])
-  ++ (match e.binary with
-      | some be => if e.id ∈ b.binary then [Invocation.binary e.id (if be.pressed then 1 else 0) (be.edge % 256)] else []
-      | none => [])
-  ++ (match e.pulsed with
-      | some v => if e.id ∈ b.pulsed then [Invocation.pulsed e.id v] else []
-      | none => [])
-  ++ (match e.absolute with
-      | some v => if e.id ∈ b.absolute then [Invocation.absolute e.id (v : Int)] else []
-      | none => [])
-  ++ (match e.speed with
-      | some v => if e.id ∈ b.intensity then [Invocation.intensity e.id v] else []
-      | none => [])
+  callTrigger b e ++ callBinary b e ++ callPulsed b e ++ callAbsolute b e ++ callIntensity b e
 
 def dispatchMsg (b : Bindings) (m : OutMsg) : List Invocation := m.events.flatMap (dispatchEvent b)
 
 /-- the invocation log of a whole history -/
 def dispatch (b : Bindings) (h : List OutMsg) : List Invocation := h.flatMap (dispatchMsg b)
 
-/-- effects of one message in program order: ack first (266-270), then the handlers (320-338) -/
+/-- effects of one message in program order: ack first (283-287), then the handlers (337-363) -/
 def effects (b : Bindings) (m : OutMsg) : List Effect :=
   (if m.flow = .ping then [Effect.sendAck] else []) ++ (dispatchMsg b m).map Effect.invoke
 
@@ -105,7 +128,7 @@ structure PState where
   name : List Nat := []
   topoJSON : List Nat := []
   topoSVG : List Nat := []
-  /-- the JSON text from which the parsed topology object handed out by `GetTopology` was built.  Line 304 allocates a
+  /-- the JSON text from which the parsed topology object handed out by `GetTopology` was built.  Line 321 allocates a
   fresh `topology.Topology` before every `json.Unmarshal`, so the object is a function of that one text only. -/
   topoSrc : List Nat := []
   avail : List (Nat × Nat) := []        -- association list, newest binding of a key first
@@ -113,7 +136,7 @@ structure PState where
 
 def setIfNonEmpty (old new : List Nat) : List Nat := if new = [] then old else new
 
-/-- lines 272-317 -/
+/-- lines 289-334 -/
 def applyMsg (s : PState) (m : OutMsg) : PState :=
   let s := match m.info with
     | some i => { s with model := setIfNonEmpty s.model i.model, serial := setIfNonEmpty s.serial i.serial,
@@ -131,18 +154,110 @@ def finalState (s : PState) (h : List OutMsg) : PState := h.foldl applyMsg s
 
 def lookupAvail (s : PState) (k : Nat) : Option Nat := (s.avail.find? (·.1 = k)).map (·.2)
 
-/-- `IsInitialized` (342-353) -/
+/-- `IsInitialized` (367-378) -/
 def isInitialized (s : PState) : Bool :=
   s.model ≠ [] && s.serial ≠ [] && s.topoJSON ≠ [] && s.topoSVG ≠ []
 
-/-! ## (b) reader + select loop with bounded queues -/
+/-! ### the reader's message filter -/
 
-/-- capacity of `toPanel` and `fromPanel` (rawpanel.go 81-82) -/
-def cap : Nat := 10
+/-- `readFromPanel`: the binary loop forwards a decoded message only `if outgoingMessage.FlowMessage != 2` (238) — a
+message whose flow field is ACK is dropped with everything else it carries; the ASCII loop skips the line `ack` only
+(267), what the panel sent along with it arrives as lines (messages) of its own.  `dropAck` = the reader drops a whole
+message whose flow field is ACK: `true` for the binary reader of the code as it is, `false` for the ASCII reader. -/
+def readerKeeps (dropAck : Bool) (m : OutMsg) : Bool := !(dropAck && decide (m.flow = .ack))
+
+/-- what the dispatcher gets to see of a history -/
+def readerView (dropAck : Bool) (h : List OutMsg) : List OutMsg := h.filter (readerKeeps dropAck)
+
+/-- invocation log / ack count / state of the client for what the panel SENT -/
+def clientLog (dropAck : Bool) (b : Bindings) (h : List OutMsg) : List Invocation := dispatch b (readerView dropAck h)
+def clientAcks (dropAck : Bool) (h : List OutMsg) : Nat := acks (readerView dropAck h)
+def clientState (dropAck : Bool) (s : PState) (h : List OutMsg) : PState := finalState s (readerView dropAck h)
+
+/-- an ACK message that carries nothing else (the only kind the filter may drop without loss) -/
+def pureAck (m : OutMsg) : Bool := m.info.isNone && m.avail.isNone && m.topo.isNone && m.events.isEmpty
+
+/-! ### `Bind*` while events are flowing
+
+Every event looks all five maps up under the read lock (339-346) and `Bind*` writes one map under the write lock
+(inputs.go 46-104): relative to the look-ups a registration is atomic, so a run is a sequence of registrations and
+events in the order in which they took the lock. -/
+
+inductive Kind | trigger | binary | pulsed | absolute | intensity
+  deriving DecidableEq, Repr
+
+def Bindings.add (b : Bindings) : Kind → Nat → Bindings
+  | .trigger, id => { b with trigger := id :: b.trigger }
+  | .binary, id => { b with binary := id :: b.binary }
+  | .pulsed, id => { b with pulsed := id :: b.pulsed }
+  | .absolute, id => { b with absolute := id :: b.absolute }
+  | .intensity, id => { b with intensity := id :: b.intensity }
+
+def Bindings.has (b : Bindings) : Kind → Nat → Bool
+  | .trigger, id => decide (id ∈ b.trigger)
+  | .binary, id => decide (id ∈ b.binary)
+  | .pulsed, id => decide (id ∈ b.pulsed)
+  | .absolute, id => decide (id ∈ b.absolute)
+  | .intensity, id => decide (id ∈ b.intensity)
+
+inductive DynItem
+  | bind (k : Kind) (id : Nat)      -- a `Bind*` call took the write lock
+  | event (e : Event)               -- the dispatcher looked the handlers of `e` up and called them
+  deriving DecidableEq, Repr
+
+def dispatchDyn (b : Bindings) : List DynItem → List Invocation
+  | [] => []
+  | .bind k id :: r => dispatchDyn (b.add k id) r
+  | .event e :: r => dispatchEvent b e ++ dispatchDyn b r
+
+/-! ### `Connect` / `init` (63-150) -/
+
+/-- what `init`'s `select` can observe after the initial request went out, in the order in which it happens -/
+inductive InitEv
+  | dispatched (m : OutMsg)   -- the dispatcher processed a message of the panel (state updated under the lock)
+  | ctxDone                   -- the context was cancelled: `readFromPanel` returned (EOF, over-limit header, stalled
+                              -- frame) and `listen` closed the connection and called `cancel` (208-209) — or the caller did
+  | windowClosed              -- `time.After(2 * time.Second)` fired
+  deriving DecidableEq, Repr
+
+/-- Does `Connect` return `(panel, nil)`?  The poller (131-139) reports an initialised state; `ctx.Done()` makes `init`
+return nil in the pinned code (143-144) and — `strictInit`, the repair — an error unless the state is initialised;
+the timer returns the error.  A history that just ends is one in which nothing more happens until the timer fires.
+(The 10 ms polling period and the 2 s are real time and outside the model.) -/
+def connectFrom (strictInit : Bool) : PState → List InitEv → Bool
+  | s, [] => isInitialized s
+  | s, .dispatched m :: r => isInitialized s || connectFrom strictInit (applyMsg s m) r
+  | s, .ctxDone :: _ => isInitialized s || !strictInit
+  | s, .windowClosed :: _ => isInitialized s
+
+def connect (strictInit : Bool) (evs : List InitEv) : Bool := connectFrom strictInit {} evs
+
+/-- the messages dispatched before the window closed or the connection ended -/
+def windowMsgs : List InitEv → List OutMsg
+  | .dispatched m :: r => m :: windowMsgs r
+  | _ => []
+
+/-- the window ended by a cancelled context (connection lost / caller's cancel), not by the timer -/
+def endedByCtxDone : List InitEv → Bool
+  | .dispatched _ :: r => endedByCtxDone r
+  | .ctxDone :: _ => true
+  | _ => false
+
+/-! ## (b) reader, dispatcher and writer around the two bounded queues -/
+
+/-- capacities of the two channels -/
+structure Caps where
+  fromPanel : Nat
+  toPanel : Nat
+  deriving DecidableEq, Repr
+
+/-- `make(chan …, N)` in `Connect` (83-84), read from the source by the extractor -/
+def caps : Caps := { fromPanel := Gen.gorwpFromPanelCap, toPanel := Gen.gorwpToPanelCap }
 
 /-- what the panel put on the wire, one entry per frame -/
 inductive Frame
   | valid (id : Nat) (sends : Nat)  -- a message; processing it makes `sends` sends into `toPanel` (acks + feedback)
+  | skipped                         -- a message the reader does not forward (flow field ACK, see `readerKeeps`)
   | overLimit                       -- header ≥ 500000
   | truncated                       -- payload does not arrive within 2 s
   deriving DecidableEq, Repr
@@ -157,7 +272,7 @@ structure QSt where
   readerRunning : Bool := true
   fromPanel : List (Nat × Nat) := []   -- queued messages (id, sends), oldest first
   toPanel : Nat := 0                -- queued outgoing messages
-  loop : Loop := .idle
+  loop : Loop := .idle              -- the goroutine that dispatches (pinned: the one `select` loop)
   dispatched : List Nat := []       -- ids handed to `procesMessagesFromPanel`, oldest first
   written : Nat := 0                -- messages written to the socket
   deriving DecidableEq, Repr
@@ -167,25 +282,28 @@ def qinit (stream : List Frame) : QSt := { stream }
 inductive QLbl
   | readerFrame      -- the reader consumes the next frame
   | loopTakeFrom     -- `case messagesFromPanel := <-rp.fromPanel`
-  | loopSend         -- one `rp.toPanel <- …` inside the loop goroutine
-  | loopDrain        -- `case messagesToPanel := <-rp.toPanel` + socket write
+  | loopSend         -- one `rp.toPanel <- …` inside the dispatching goroutine
+  | loopDrain        -- (pinned only) `case messagesToPanel := <-rp.toPanel` + socket write in the same loop
   | tick             -- `case <-ticker.C`
-  | writerDrain      -- (repaired variant only) a separate writer goroutine takes from `toPanel`
+  | writerDrain      -- (code as it is) the writer goroutine takes from `toPanel` and writes
   deriving DecidableEq, Repr
 
 /-- `strict`: the over-limit branch returns an error (repair 1).  `decoupled`: `toPanel` is drained by its own
-goroutine, which also owns the ticker and enqueues the ping without blocking (repair 2).  `false false` is the pinned code. -/
-def qstep (strict decoupled : Bool) (s : QSt) : QLbl → Option QSt
+goroutine, which also owns the ticker and enqueues the ping without blocking (repair 2).  `false false` is the pinned
+code, `true true` the code as it is.  The abstraction is generous to the environment: a slot freed by the writer may
+be taken by the ticker's ping before the waiting dispatcher gets it (Go hands the slot to the parked sender). -/
+def qstep (c : Caps) (strict decoupled : Bool) (s : QSt) : QLbl → Option QSt
   | .readerFrame =>
     if s.readerRunning then
       match s.stream with
       | [] => none
       | .valid id k :: rest =>
-        if s.fromPanel.length < cap then some { s with stream := rest, fromPanel := s.fromPanel ++ [(id, k)] } else none
+        if s.fromPanel.length < c.fromPanel then some { s with stream := rest, fromPanel := s.fromPanel ++ [(id, k)] } else none
+      | .skipped :: rest => some { s with stream := rest }
       | .overLimit :: rest =>
         if strict then some { s with stream := rest, readerRunning := false }
-        else some { s with stream := rest }            -- logs and keeps parsing (226-228)
-      | .truncated :: rest => some { s with stream := rest, readerRunning := false }  -- `break` leaves the `for` (216-218)
+        else some { s with stream := rest }            -- pinned: logs and keeps parsing
+      | .truncated :: rest => some { s with stream := rest, readerRunning := false }  -- `break` leaves the `for` (232-234)
     else none
   | .loopTakeFrom =>
     if s.loop = .idle then
@@ -196,7 +314,7 @@ def qstep (strict decoupled : Bool) (s : QSt) : QLbl → Option QSt
   | .loopSend =>
     match s.loop with
     | .sending (r + 1) =>
-      if s.toPanel < cap then some { s with toPanel := s.toPanel + 1, loop := if r = 0 then .idle else .sending r } else none
+      if s.toPanel < c.toPanel then some { s with toPanel := s.toPanel + 1, loop := if r = 0 then .idle else .sending r } else none
     | _ => none
   | .loopDrain =>
     if decoupled then none
@@ -204,33 +322,34 @@ def qstep (strict decoupled : Bool) (s : QSt) : QLbl → Option QSt
   | .tick =>
     if decoupled then
       -- the ticker lives in the writer goroutine and enqueues its ping without waiting (dropped when the queue is full)
-      some { s with toPanel := if s.toPanel < cap then s.toPanel + 1 else s.toPanel }
+      some { s with toPanel := if s.toPanel < c.toPanel then s.toPanel + 1 else s.toPanel }
     else if s.loop = .idle then some { s with loop := .sending 1 }
     else none
   | .writerDrain =>
     if decoupled ∧ s.toPanel > 0 then some { s with toPanel := s.toPanel - 1, written := s.written + 1 } else none
 
-def qrun (strict decoupled : Bool) (s : QSt) : List QLbl → Option QSt
+def qrun (c : Caps) (strict decoupled : Bool) (s : QSt) : List QLbl → Option QSt
   | [] => some s
-  | l :: ls => (qstep strict decoupled s l).bind (fun s' => qrun strict decoupled s' ls)
+  | l :: ls => (qstep c strict decoupled s l).bind (fun s' => qrun c strict decoupled s' ls)
 
-inductive QReachable (strict decoupled : Bool) (stream : List Frame) : QSt → Prop
-  | init : QReachable strict decoupled stream (qinit stream)
-  | step {s s' : QSt} (l : QLbl) : QReachable strict decoupled stream s → qstep strict decoupled s l = some s' →
-      QReachable strict decoupled stream s'
+inductive QReachable (c : Caps) (strict decoupled : Bool) (stream : List Frame) : QSt → Prop
+  | init : QReachable c strict decoupled stream (qinit stream)
+  | step {s s' : QSt} (l : QLbl) : QReachable c strict decoupled stream s → qstep c strict decoupled s l = some s' →
+      QReachable c strict decoupled stream s'
 
-/-- the loop goroutine is blocked sending into a full `toPanel` -/
-def blocked (s : QSt) : Bool :=
+/-- the dispatching goroutine is blocked sending into a full `toPanel` -/
+def blocked (c : Caps) (s : QSt) : Bool :=
   match s.loop with
-  | .sending (_ + 1) => s.toPanel == cap
+  | .sending (_ + 1) => s.toPanel == c.toPanel
   | _ => false
 
-/-- events are waiting behind the loop -/
+/-- events are waiting behind the dispatcher -/
 def pending (s : QSt) : Bool := !s.fromPanel.isEmpty || (s.readerRunning && !s.stream.isEmpty)
 
-/-- ids of the valid frames before the first broken frame -/
+/-- ids of the forwarded frames before the first broken frame -/
 def goodPrefix : List Frame → List Nat
   | .valid id _ :: rest => id :: goodPrefix rest
+  | .skipped :: rest => goodPrefix rest
   | _ => []
 
 end RawPanelVerif.Gorwp
